@@ -256,10 +256,11 @@ Exprs == CASE Slice = "skip"   -> SkipExprs(MaxSize)
                                         Bin("seq", Un("not", Id("r1")), Id("r1")), Bin("seq", Un("not", Un("not", S(a))), S(a)),
                                         \* a predicate-led sequence with TWO further elements, the last of which can fail after the first has
                                         \* matched, directly under * / ? / | (the checkpoint of the sequence is what undoes the first)
-                                        Bin("seq", Un("rep", Bin("seq", Un("not", S(b)), Bin("seq", S(a), S(b)))), S(a)),
-                                        Bin("seq", Un("opt", Bin("seq", Un("not", S(b)), Bin("seq", S(a), S(b)))), S(a)),
-                                        Bin("alt", Bin("seq", Un("not", S(b)), Bin("seq", S(a), S(b))), S(a)),
-                                        Bin("seq", Un("rep", Bin("seq", Un("not", S(b)), Bin("seq", Id("r1"), S(b)))), Un("rep", Id("r1"))) }
+                                        \* (the middle element is a rule call: two literals in a row would be merged into one by the optimizer)
+                                        Bin("seq", Un("rep", Bin("seq", Un("not", S(b)), Bin("seq", Id("r1"), S(b)))), S(a)),
+                                        Bin("seq", Un("opt", Bin("seq", Un("not", S(b)), Bin("seq", Id("r1"), S(b)))), S(a)),
+                                        Bin("alt", Bin("seq", Un("not", S(b)), Bin("seq", Id("r1"), S(b))), S(a)),
+                                        Bin("seq", Un("rep", Bin("seq", Un("and", S(a)), Bin("seq", Id("r1"), S(a)))), Un("rep", S(a))) }
            [] OTHER -> UNION { ExprsOfSize(n) : n \in 1..MaxSize }
 
 \* WHITESPACE / COMMENT bodies: a literal, or (wb = "rule") a call of a non-silent helper rule, which
